@@ -619,26 +619,28 @@ def do_check(pid, tier, replay):
                 unlisted.append(i)
         # A failure of the property's oracle that comes from the harness's own timing on an overloaded machine
         # (a call "did not return" within the hang timeout, an event seen one step late) does not reproduce when
-        # the case runs alone: a small number of failing cases is re-run alone three times each; a case that is
-        # clean all three times is recorded as unstable and not reported. Deterministic failures are unaffected.
+        # the case runs alone: a small number of failing cases is re-run alone SPEC_RECHECK_RUNS times each (more
+        # where the code under test makes random choices of its own); a case that is clean every time is recorded
+        # as unstable and not reported. Deterministic failures are unaffected.
         unstable_spec = []
+        nruns = getattr(prop, "SPEC_RECHECK_RUNS", 5)
         if unlisted and len(unlisted) <= 6 and not replay and (judge_ok or JUDGE_COQ[0]):
             keep = []
             t_re = time.time()
             for i in unlisted:
                 rargs = uniq[i].get("replay")
-                if rargs is None or uniq[i].get("id") == "driver-crash" or time.time() - t_re > 150:
+                if rargs is None or uniq[i].get("id") == "driver-crash" or time.time() - t_re > 240:
                     keep.append(i)
                     continue
                 clean = 0
-                for _ in range(3):
+                for _ in range(nruns):
                     rr = run_and_judge(prop, tier, seed, workdir, "recheck", list(rargs))
                     if rr["uniq"] and not rr["verdict"]["error"] and not rr["verdict"]["bad_agree"] and not rr["verdict"]["bad_spec"] \
                             and rr["driver_rc"] == 0:
                         clean += 1
                     else:
                         break
-                if clean == 3:
+                if clean == nruns:
                     unstable_spec.append(uniq[i].get("id"))
                 else:
                     keep.append(i)
